@@ -263,4 +263,28 @@ def run(ctx):
 
 
 def replay(ctx, path):
-    return objcheck.replay_file(harness(ctx), [], path, ctx.rundir)
+    d = json.load(open(path))
+    if not str(d.get("key", "")).startswith("trace-rejected"):
+        return objcheck.replay_file(harness(ctx), [], path, ctx.rundir)
+    # a recorded execution TLC rejected: record the same script again and let TLC judge it again
+    from vlib import trace
+    from vlib.replay import run_scripts
+    txt_ = d["replay"]["script_text"]
+    steps = []
+    for line in txt_.splitlines()[1:-1]:
+        w = line.split(" = ")[0].split(" ")
+        steps.append((w[0], [untok(a) for a in w[1:] if a != ""]))
+    fails, recs, ns, nt = run_scripts(harness(ctx), [], [txt_], ctx.rundir, jobs=1, tag="replay")
+    for f in fails:
+        print("REPRODUCED (the script fails before validation)", f)
+    if fails:
+        return 1
+    events = [{"op": "reset", "args": [], "ret": True, "post": INIT}]
+    for sid, step, ret, state in sorted(recs, key=lambda r: r[1]):
+        events.append({"op": steps[step][0], "args": steps[step][1], "ret": untok(ret), "post": untok(state)})
+    ok, pos, _ = trace.validate(ctx, "UrlObjTrace.tla", "UrlObjTrace.cfg", events, tag="replay")
+    if ok:
+        print("not reproduced: TLC accepts the recorded execution (%d events)" % len(events))
+        return 0
+    print("REPRODUCED: TLC rejects the recorded execution at event %d: %s" % (pos, json.dumps(events[pos])[:600]))
+    return 1
